@@ -253,11 +253,12 @@ for _m in BR_THEN_UNQUOTE:
 # '%'-formatting a TaintedString under CrossHair raises an internal SystemError (the symbolic wrapper is copied through
 # __reduce__, which TaintedString forbids): those templates are decided over a stated pool of tainted values, untraced
 POOL_GLUE = {'cfmt_pre', 'cfmt_10s', 'cfmt_s_unq', 'epfs_r', 'epfs_10s', 'epfs_dot1s', 'epfs_dot1s_unq', 'cfmt_s'}
-TPOOL = ['<', 'a<b', '<%3C', ' <', '=<', '<\n', '%s<', '<<<', '%3C<', '<script>', '\x00<', "'<\""]
+TPOOL = ['<', 'a<b', '<%3C', ' <', '=<', '<\n', '%s<', '<<<', '%3C<', '<script>', '\x00<', "'<\"", '<b>%3Cscript%3E', '<%253C', '12<345', '<+%2B']
 
 
 def make_glue_pool(name):
     ob0 = make_glue(name)
+    t0 = GT[name]
 
     def ob(j: int) -> bool:
         idx = 0
@@ -266,7 +267,11 @@ def make_glue_pool(name):
                 idx = i
         from crosshair.tracers import NoTracing
         with NoTracing():
-            return ob0(TPOOL[idx])
+            try:
+                t0(x=TPOOL[idx])          # the same text rendered first as a trusted plain string ...
+            except BENIGN:
+                pass
+            return ob0(TPOOL[idx])        # ... must not influence how the tainted value is treated afterwards
     ob.__name__ = 'ob_gluepool_' + name
     return ob
 
@@ -279,6 +284,9 @@ for _n in GLUE:
                               outside='tainted values outside the pool for %%-format templates',
                               stubs='CrossHair cannot trace %-formatting of a TaintedString (internal SystemError): pool + untraced render'))
         continue
+    OBLIGATIONS.append(Ob('gluepool_' + _n, make_glue_pool(_n), ['0 <= j < %d' % len(TPOOL)], timeout=tier(120, 600),
+                          data='-', selectors='template %r (%s): each pool value %r rendered plain first, then tainted (untraced per path)' % (_src, _cls.__name__, TPOOL),
+                          outside='tainted values outside the pool', stubs='render runs untraced once the value is fixed on the path'))
     _pre = ['len(s) <= %d' % NG] + ([ALPHA_PRE] if _alpha or 'quote' in _src.replace('html_quote', '').replace('sql_quote', '').replace('html-quote', '').replace('sql-quote', '') else [])
     OBLIGATIONS.append(Ob('glue_' + _n, make_glue(_n), _pre, timeout=tier(120, 600),
                           data="tainted value s containing '<', len <= %d%s" % (NG, ' over alphabet' if _alpha else ', any code points'),
